@@ -76,6 +76,7 @@ def run():
     wd = os.path.join(vlib.WORK, 'c14')
     shutil.rmtree(wd, ignore_errors=True)
     os.makedirs(wd)
+    ck.sensitivity('RxConc', 'MCConc_unfixed.cfg', 'creating a HARD_AES VM writes the process-wide aesDummy (the code before the repair 201f661)')
     r = vlib.tlc('RxConc', 'MCConc.cfg', workers=8, timeout=900)
     ck.add_model('MCConc', r, '3 threads, every assignment of scripts (light VM, full VM, own cache, dataset range initialiser over 3 ranges; with/without HARD_AES), all interleavings of Begin/End')
     if not r['ok']:
